@@ -16,6 +16,7 @@ func init() {
 		ruleU2(c, "C07.U2")
 		ruleU3(c, "C07.U3")
 		ruleW1(c, "C07.U4")
+		ruleM6(c, "C07.U5")
 	}
 }
 
